@@ -1,4 +1,5 @@
 import TT.Driver.C02
+import TT.Driver.C02h3
 import TT.Driver.C03
 import TT.Driver.C04
 import TT.Driver.C05
@@ -24,6 +25,7 @@ open TT.Driver
 
 def answer (line : String) : String :=
   match line.trimAscii.toString.splitOn " " with
+  | ["c02", "h3streams", init, ops] => c02h3streams init ops
   | "c02" :: rest => c02 rest
   | "c03" :: rest => c03 rest
   | "c04" :: rest => c04 rest
